@@ -452,6 +452,60 @@ pub fn run(tier: Tier, seed: u64, replay: Option<String>) -> i32 {
             }
         }
     }
+    // ---- the TypeScript backend under concurrency: inputs of different kinds (with and without
+    // EXTENSIBILITY IMPLIED, with and without imports) compiled at the same time on 8 threads;
+    // every result must equal the one obtained alone
+    {
+        let n_in = tier.pick(24, 120);
+        let rounds = tier.pick(60, 300);
+        let mut drv = Driver::new(seed, 116, 2000);
+        let inputs: Vec<Vec<String>> = drv
+            .draw(n_in)
+            .iter()
+            .enumerate()
+            .map(|(i, t)| {
+                let mut ms = gen_set(&t.current(), &GenCfg { max_modules: 2, max_types: 5, ..GenCfg::default() });
+                // every second input says EXTENSIBILITY IMPLIED in all its headers, the others in none
+                for m in ms.modules.iter_mut() {
+                    m.ext_implied = i % 2 == 0;
+                }
+                vec![print(&ms)]
+            })
+            .collect();
+        let base: Vec<Outcome> = inputs.iter().map(|s| comp::compile_ts(s)).collect();
+        let usable: Vec<usize> = (0..inputs.len()).filter(|i| matches!(base[*i], Outcome::Ok(_))).collect();
+        if usable.len() >= 4 {
+            let inputs = Arc::new(inputs);
+            let usable = Arc::new(usable);
+            let barrier = Arc::new(Barrier::new(8));
+            let handles: Vec<_> = (0..8usize)
+                .map(|t| {
+                    let (inputs, usable, barrier) = (inputs.clone(), usable.clone(), barrier.clone());
+                    std::thread::spawn(move || {
+                        comp::install_panic_hook();
+                        barrier.wait();
+                        let mut out = vec![];
+                        for r in 0..rounds {
+                            let i = usable[(t * 7 + r * 3 + (r / 5)) % usable.len()];
+                            out.push((i, comp::compile_ts(&inputs[i])));
+                        }
+                        out
+                    })
+                })
+                .collect();
+            let mut n_cmp = 0;
+            for h in handles {
+                for (i, o) in h.join().unwrap_or_default() {
+                    n_cmp += 1;
+                    ctx.case(&format!("ts-concurrent:{n_cmp}:{}", inputs[i][0]), true);
+                    ctx.class_n("leg:typescript-concurrent", 1);
+                    if let Some(d) = differ(&base[i], &o) {
+                        fail(&mut ctx, "typescript-concurrent", &inputs[i], &inputs[i], &format!("compiled while other TypeScript compilations were running: {d}"));
+                    }
+                }
+            }
+        }
+    }
     // ---- generator outputs: permutations
     let gcfg = GenCfg { max_modules: 4, ..GenCfg::default() };
     let n_gen = tier.pick(400, 5000);
